@@ -76,6 +76,17 @@ class StateMachineMatcher:
         have_match_for = set()
         websocket_mismatch = False
 
+        def _valid(rule: Rule, values: list[str]) -> bool:
+            # A value rejected by its converter means that this rule does
+            # not match, the search continues with the next candidate.
+            try:
+                for name, value in zip(rule._converters.keys(), values):
+                    rule._converters[name].to_python(value)
+            except ValidationError:
+                return False
+
+            return True
+
         def _match(
             state: State, parts: list[str], values: list[str]
         ) -> tuple[Rule, list[str]] | None:
@@ -93,7 +104,7 @@ class StateMachineMatcher:
                         have_match_for.update(rule.methods)
                     elif rule.websocket != websocket:
                         websocket_mismatch = True
-                    else:
+                    elif _valid(rule, values):
                         return rule, values
 
                 # Test if there is a match with this path with a
@@ -101,8 +112,10 @@ class StateMachineMatcher:
                 # that matching is possible with an additional slash
                 if "" in state.static:
                     for rule in state.static[""].rules:
-                        if websocket == rule.websocket and (
-                            rule.methods is None or method in rule.methods
+                        if (
+                            websocket == rule.websocket
+                            and (rule.methods is None or method in rule.methods)
+                            and _valid(rule, values)
                         ):
                             if rule.strict_slashes:
                                 raise SlashRequired()
@@ -160,7 +173,7 @@ class StateMachineMatcher:
                         have_match_for.update(rule.methods)
                     elif rule.websocket != websocket:
                         websocket_mismatch = True
-                    else:
+                    elif _valid(rule, values):
                         return rule, values
 
             return None
